@@ -59,7 +59,7 @@ REQUIRED = ['plot:pd_ts', 'plot:pk_ts', 'plot:pd_pred', 'plot:pk_pred', 'plot:re
             'nan:time', 'nanobs', 'idx:perm', 'idx:dup', 'keys:custom', 'obs:explicit', 'ties', 'n>=50',
             'probs>=2', 'probs=7', 'intvalues', 'scatter', 'resid:indiv', 'resid:rel', 'resid:nores',
             'band:both', 'obsdtype:object', 'resid:intvalues', 'nanobs:first-default:pd_pred',
-            'nanobs:first-default:pd_ts', 'dose:unshown-individual', 'times:unsorted', 'times:close', 'ids>10']
+            'nanobs:first-default:pd_ts', 'dose:unshown-individual', 'times:unsorted', 'times:close', 'ids>10', 'dose:zero_amount']
 
 PLOTS = ['pd_ts', 'pk_ts', 'pd_pred', 'pk_pred', 'resid']
 KEYPOOL = {
@@ -161,9 +161,11 @@ def _meas_frame(draw, kind, int_ids_only):
     # dose rows: observable and value missing
     if kind == 'pk':
         for i in ids:
-            for _ in range(draw(st.integers(0, 1 if many else 3))):
+            # (a placebo / control individual: dose rows with an amount of exactly 0 are dose rows, too)
+            placebo = gen.chance(draw, 0.12)
+            for _ in range(draw(st.integers(1 if placebo else 0, 1 if many else 3))):
                 dur = None if gen.chance(draw, 0.15) else draw(gen.logu(0.01, 1))
-                rows.append([i, _time(draw, int_times), None, None, draw(gen.logu(0.1, 100)), dur])
+                rows.append([i, _time(draw, int_times), None, None, 0.0 if placebo else draw(gen.logu(0.1, 100)), dur])
     elif gen.chance(draw, 0.5) and not int_values:
         for _ in range(draw(st.integers(1, 3))):
             rows.append([draw(st.sampled_from(ids)), _time(draw, int_times), None, None])
@@ -413,6 +415,8 @@ def classify(spec):
     if 'dose' in data['fields']:
         if any(r['dose'] is not None and r['obs'] is not None for r in _dicts(data)):
             labs.append('dose:both')
+        if any(r['dose'] == 0 for r in _dicts(data) if r['dose'] is not None):
+            labs.append('dose:zero_amount')
         shown = set(r['id'] for r in _dicts(data) if r['obs'] == _resolve(spec['observable'], data))
         if any(r['dose'] is not None and r['id'] not in shown for r in _dicts(data)):
             labs.append('dose:unshown-individual')
@@ -865,6 +869,8 @@ def check(case):
         with case.clause(pre + 'call:add_data'):
             fig = (plots.PKTimeSeriesPlot if pk else plots.PDTimeSeriesPlot)(updatemenu=s['updatemenu'])
             n0 = len(fig._fig.data)
+            # (a new figure shows nothing yet, whatever other figures of this process hold)
+            case.equal(n0, 0, 'number of traces of a newly constructed figure', kind='count')
             if pk:
                 kw = _kw(data, ['id', 'time', 'obs', 'value', 'dose', 'dur'],
                          ['id_key', 'time_key', 'obs_key', 'value_key', 'dose_key', 'dose_duration_key'])
@@ -926,6 +932,7 @@ def check(case):
         fig = None
         with case.clause(pre + 'construct'):
             fig = (plots.PKPredictivePlot if pk else plots.PDPredictivePlot)(updatemenu=s['updatemenu'])
+            case.equal(len(fig._fig.data), 0, 'number of traces of a newly constructed figure', kind='count')
         if fig is None:
             return
         if s['with_data']:
